@@ -81,6 +81,11 @@ class SimultaneousScheduler(Scheduler):
 
         # the simultaneous scheduler first distributes all events to all agents ...
 
+        # events are addressed by agent id (not by position in model.agents, which differs from the id after
+        # deletions or reconfiguration); an event whose receiver no longer exists is dropped
+
+        agents_by_id = {agent.id: agent for agent in reversed(model.agents)} if model.events else {}
+
         while len(model.events) > 0:
 
             # Check if the event is of type DelayedEvent. If yes, we do not get a reply here and the event will be stored in self.delayed_events
@@ -88,10 +93,13 @@ class SimultaneousScheduler(Scheduler):
             event = self.handle_delayed_event(model.events.pop(), dt=model.dt)
 
             if event:
-                model.agents[event.receiver_id].receive_event(event)
+                receiver = agents_by_id.get(event.receiver_id)
 
-                if model.data_collector:
-                    model.data_collector.record_event(time, event)
+                if receiver is not None:
+                    receiver.receive_event(event)
+
+                    if model.data_collector:
+                        model.data_collector.record_event(time, event)
 
         # give the model a chance to update dynamic properties etc.
 
